@@ -21,7 +21,7 @@
 From Coq Require Import List String ZArith.
 Import ListNotations.
 Require Import OV.Gen.ExportTables OV.Export.Cleanup OV.Graph.Syntax OV.Graph.Names OV.Graph.Sem OV.Script.Syntax OV.Script.PySem
-               OV.Export.Emit OV.Export.EmitCF OV.Export.EmitCFProofs.
+               OV.Export.Emit OV.Export.EmitProofs OV.Export.EmitCF OV.Export.EmitCFProofs.
 Local Open Scope string_scope.
 
 (* The full statement for nested graphs, every option and every Loop form: kept visible. *)
@@ -37,7 +37,7 @@ Definition C13_export_sound_nested_full : Prop :=
 
 Theorem C13_export_nested_sound_partial :
   forall (V : Type) sem truth trip of_nat of_bool limit globals kw prename rename infun fname ivals g f sk,
-    export_cf kw prename rename infun false false false fname ivals g = Some (f, sk) ->
+    export_cf kw prename rename infun None None false fname ivals g = Some (f, sk) ->
     nested_okb kw prename rename infun ivals g = true ->
     forall fp fg xs, depth_graph g <= S fp -> depth_graph g <= S fg ->
       eval_script V sem truth trip of_nat limit globals (S (S fp)) f xs =
@@ -52,7 +52,7 @@ Print Assumptions C13_export_nested_sound_partial.
    and a keyword; nested_okb holds, the export is the expected program, both sides give 94 on -3 and -10 on 5 *)
 Theorem C13_export_nested_example :
   nested_okb kwlist (cleanup kwlist) (cleanup kwlist) false iv_nested g_nested = true /\
-  export_cf kwlist (cleanup kwlist) (cleanup kwlist) false false false false "g" iv_nested g_nested = Some (f_nested, []) /\
+  export_cf kwlist (cleanup kwlist) (cleanup kwlist) false None None false "g" iv_nested g_nested = Some (f_nested, []) /\
   zscript2 f_nested [(-3)%Z] = Some [94%Z] /\ zscript2 f_nested [5%Z] = Some [(-10)%Z] /\
   option_map (fun outer => zgraph2 outer g_nested [(-3)%Z]) (init_env Z zsem2 iv_nested) = Some (Some [94%Z]) /\
   option_map (fun outer => zgraph2 outer g_nested [5%Z]) (init_env Z zsem2 iv_nested) = Some (Some [(-10)%Z]).
@@ -62,7 +62,30 @@ Print Assumptions C13_export_nested_example.
 (* use_operators + inline_const: the program printed for Pow(-2, x) is `y = -2 ** x`, i.e. -(2 ** x) once parsed.
    Replayed on the real exporter by the harness: known finding C13:use_operators:negative-literal-pow-base:precedence. *)
 Theorem C13_export_pow_negative_base_refuted :
-  exists f, export_cf kwlist (cleanup kwlist) (cleanup kwlist) false true true false "g" [] g_powneg = Some (f, []) /\
+  exists f, export_cf kwlist (cleanup kwlist) (cleanup kwlist) false (Some false) (Some as_read_fx) false "g" [] g_powneg = Some (f, []) /\
             f_body f = [SAssign "y" (EUn "USub" (EBin "Pow" (ELit (LInt 2%Z)) (EVar "x"))); SReturn [EVar "y"]].
 Proof. exact export_pow_negative_base_refuted. Qed.
 Print Assumptions C13_export_pow_negative_base_refuted.
+
+(* ---- repair variants (the harness decides by probe which one the implementation shows, harness/c13_variants.py) ---- *)
+(* C13_11: with the operand parenthesized the power keeps its negative base *)
+Theorem C13_export_pow_negative_base_repaired :
+  exists f, export_cf kwlist (cleanup kwlist) (cleanup kwlist) false (Some true) (Some as_read_fx) false "g" [] g_powneg = Some (f, []) /\
+            f_body f = [SAssign "y" (EBin "Pow" (ELit (LInt (-2)%Z)) (EVar "x")); SReturn [EVar "y"]].
+Proof. exact export_pow_negative_base_repaired. Qed.
+Print Assumptions C13_export_pow_negative_base_repaired.
+
+(* C13_05, as read: an inlined Constant that is a graph output is returned by a name no statement binds: the program
+   fails (unbound name) on every input (known finding C13:inline_const:constant-used-as-assignment-source) *)
+Theorem C13_export_inlined_source_refuted :
+  exists f, export_cf kwlist (cleanup kwlist) (cleanup kwlist) false None (Some as_read_fx) false "g" [] g_const_out = Some (f, []) /\
+            f_body f = [SAssign "t" (ECall (COp "Neg") [Some (EVar "x")] []); SReturn [EVar "t"; EVar "c"]] /\
+            zscript f [1%Z] = None.
+Proof. exact export_inlined_source_refuted. Qed.
+Print Assumptions C13_export_inlined_source_refuted.
+
+Theorem C13_export_inlined_source_repaired :
+  exists f, export_cf kwlist (cleanup kwlist) (cleanup kwlist) false None (Some repaired_fx) false "g" [] g_const_out = Some (f, []) /\
+            f_body f = [SAssign "t" (ECall (COp "Neg") [Some (EVar "x")] []); SReturn [EVar "t"; ELit (LInt 3%Z)]].
+Proof. exact export_inlined_source_repaired. Qed.
+Print Assumptions C13_export_inlined_source_repaired.
